@@ -440,3 +440,73 @@ func c10DoubleClose(x *X) {
 func init() {
 	register(&Scenario{Prop: "C10", Name: "c10/double-close", Quick: []Bound{{0, 0}, {1, 0}}, Thorough: []Bound{{2, 0}}, Body: c10DoubleClose, BudgetQ: 15})
 }
+
+// a stream is closed by one goroutine while another one is writing to it (the message may reach
+// the server after the close frame: a message for a stream the server no longer knows), next to a
+// sibling stream whose handler is blocked; then the connection ends: every handler returns, the
+// server's side of the connection is torn down completely, nothing is left blocked.
+func c10WriteRacingClose(x *X) {
+	mode := x.Choose(3)
+	so := srvOpts{bufSize: 64}
+	switch mode {
+	case 1:
+		so.pipelining = true
+	case 2:
+		so.directIO = true
+	}
+	end := x.Choose(2) // the connection ends by Conn.Close / by the peer's socket dying
+	f := newFixture(so, cliOpts{bufSize: 64})
+	a, e0 := f.conn.NewStream("StreamSvc.Push")
+	b, e1 := f.conn.NewStream("StreamSvc.Push")
+	if e0 != nil || e1 != nil {
+		x.Fail("C10/open-failed/write-racing-close", "NewStream: %v / %v", e0, e1)
+		return
+	}
+	_ = b
+	wrote, closed := false, false
+	vs.GoNamed("writer", func() {
+		for j := 0; j < 2; j++ {
+			m := streamMsg(0x31, j)
+			a.WriteMessage(&m)
+		}
+		wrote = true
+	})
+	vs.GoNamed("closer", func() { a.Close(); closed = true })
+	vs.Quiesce()
+	if !wrote || !closed {
+		x.Fail("C10/close-blocked/write-racing-close", "Stream.Close racing with WriteMessage on the same stream: writer returned=%v, Close returned=%v", wrote, closed)
+	}
+	// the sibling still works
+	m := streamMsg(0x32, 0)
+	var back []byte
+	var rerr error
+	echoed := false
+	vs.GoNamed("sibling", func() {
+		b.WriteMessage(&m)
+		rerr = b.ReadMessage(nil, &back)
+		echoed = true
+	})
+	vs.Quiesce()
+	if !echoed || rerr != nil || !eqBytes(back, transform(m)) {
+		x.Fail("C10/sibling-disturbed/write-racing-close", "the sibling stream afterwards: echoed=%v err=%v", echoed, rerr)
+	}
+	if end == 0 {
+		vs.GoNamed("conn-closer", func() { f.conn.Close() })
+	} else {
+		f.cl.Kill()
+	}
+	vs.Quiesce()
+	if f.w.streamsEx != f.w.streamsIn {
+		x.Fail("C10/handler-blocked/write-racing-close", "the connection has ended (%d): %d stream handlers entered, %d returned", end, f.w.streamsIn, f.w.streamsEx)
+	}
+	f.conn.Close()
+	vs.Quiesce()
+	for _, t := range blockedThreads(nil) {
+		x.Fail("C10/thread-left-behind/write-racing-close", "after the connection ended (%d) and both ends were closed: %s", end, t)
+	}
+	x.Outcome("mode=%d end=%d handlers=%d/%d", mode, end, f.w.streamsEx, f.w.streamsIn)
+}
+
+func init() {
+	register(&Scenario{Prop: "C10", Name: "c10/write-racing-close", Quick: []Bound{{1, 0}, {2, 0}}, Thorough: []Bound{{3, 0}}, Body: c10WriteRacingClose, BudgetQ: 25})
+}
